@@ -34,6 +34,7 @@ func configFor(k int, rng *sim.Rng) Config {
 	c.BufferV1 = []Frac{fr(6, 5), fr(3, 2), fr(1, 1)}[k%3]
 	c.CuspV1 = []Frac{fr(7, 10), fr(3, 5), fr(1, 2)}[(k/2)%3]
 	c.Interest = c.StabFee.Num > 0
+	c.Decoy = rng.Intn(2) == 1
 	if rng.Intn(2) == 1 { // about every other run: a collector that can cover the whole debt of any auction (loss close-outs that draw more than the shortfall succeed too)
 		c.CollectorFund = 1000 * c.DecS
 	}
@@ -561,6 +562,7 @@ func explore(lg *sim.Log, rng *sim.Rng, seed int64, depth, maxNodes int, actsFil
 func exploreV1(lg *sim.Log, seed int64, depth, maxNodes int, fund int64) {
 	cfg := exploreConfig()
 	cfg.CollectorFund = fund
+	cfg.Decoy = fund > 0
 	w0 := Setup(cfg)
 	run := fmt.Sprintf("explorev1:%d", seed)
 	if fund > 0 { // a collector that can cover the whole debt of either auction
